@@ -386,10 +386,12 @@ theorem storeApiKey_fields (s : State) (name : String) (v : Option String) :
     exact ⟨fun _ => ⟨h1, this.1, this.2⟩, (fun h => by cases h), h2, h3, h5⟩
   | false =>
     simp only [Bool.false_eq_true, if_false]
-    exact ⟨(fun h => by cases h), fun _ => rfl, h2, h3, h5⟩
+    refine ⟨?_, ?_, h2, h3, h5⟩
+    · first | trivial | (intro h; cases h)
+    · first | trivial | (intro _; rfl)
 
 theorem storeApiKey_ro (s : State) (name : String) (v : Option String) (h : s.primaryRO = true) :
-    (storeApiKey s name v).1.bound = s.bound ∧ (storeApiKey s name v).2 = false := by
+    storeApiKey s name v = (s, false) := by
   unfold storeApiKey
   rw [persistKeys_ro _ (by simpa using h)]
   simp
@@ -536,6 +538,32 @@ theorem rpc_root_state (cfg : Cfg) (s : State) (r : Request) :
             · rename_i heq; rw [heq]
             · rename_i heq; rw [heq]
 
+theorem registerDb_bound_of_ro (cfg : Cfg) (s : State) (mode : OpenMode) (n : String) (k : Option String)
+    (hro : s.primaryRO = true) : (registerDb cfg s mode n k).1.bound = s.bound := by
+  cases k <;> unfold registerDb <;> dsimp only <;> repeat' split
+  all_goals simp_all [storeApiKey_ro, persistRegistry_ro]
+
+theorem closeDb_bound_of_ro (cfg : Cfg) (s : State) (n : String) (hro : s.primaryRO = true) :
+    (closeDb cfg s n).1.bound = s.bound := by
+  unfold closeDb
+  dsimp only
+  repeat' split
+  all_goals simp_all [persistRegistry_ro]
+
+theorem setDbApiKey_bound_of_ro (cfg : Cfg) (s : State) (n : String) (k : Option String) (f : String)
+    (hro : s.primaryRO = true) : (setDbApiKey cfg s n k f).1.bound = s.bound := by
+  unfold setDbApiKey
+  dsimp only
+  repeat' split
+  all_goals simp_all [storeApiKey_ro]
+
+theorem removeDbApiKey_bound_of_ro (s : State) (n : String) (hro : s.primaryRO = true) :
+    (removeDbApiKey s n).1.bound = s.bound := by
+  unfold removeDbApiKey
+  dsimp only
+  repeat' split
+  all_goals simp_all [storeApiKey_ro]
+
 theorem rootHandler_bound_of_ro (cfg : Cfg) (s : State) (hd : String) (p : RootParams) (f : String)
     (hro : s.primaryRO = true) : (rootHandler cfg s hd p f).1.bound = s.bound := by
   unfold rootHandler
@@ -549,28 +577,27 @@ theorem rootHandler_bound_of_ro (cfg : Cfg) (s : State) (hd : String) (p : RootP
       | some n =>
         simp only
         repeat' split
-        · cases hk : p.apiKey <;> unfold registerDb <;> simp only [hro, ↓reduceIte] <;> repeat' split
-          all_goals rfl
-        · unfold registerDb; simp only [hro, ↓reduceIte]; repeat' split
-          all_goals rfl
-        · unfold registerDb; simp only [hro, ↓reduceIte]; repeat' split
-          all_goals rfl
-        · unfold closeDb; repeat' split
-          all_goals rfl
-        · unfold setDbApiKey; simp only [hro, ↓reduceIte]; repeat' split
-          all_goals rfl
-        · unfold removeDbApiKey; simp only [hro, ↓reduceIte]; repeat' split
-          all_goals rfl
+        · exact registerDb_bound_of_ro _ _ _ _ _ hro
+        · exact registerDb_bound_of_ro _ _ _ _ _ hro
+        · exact registerDb_bound_of_ro _ _ _ _ _ hro
+        · exact closeDb_bound_of_ro _ _ _ hro
+        · exact setDbApiKey_bound_of_ro _ _ _ _ _ hro
+        · exact removeDbApiKey_bound_of_ro _ _ hro
         · rfl
 
 /-! ## invariants of the server state over histories -/
 
-/-- Rule 1's invariant and the primary's: without an admin key there is no binding at all, and the
-primary database (which stores the registry and the key digests) is never bound to a key. -/
-def Inv (cfg : Cfg) (s : State) : Prop :=
-  (cfg.admin = none → s.bound = []) ∧ lookup s.bound cfg.primary = none
+/-- Rule 1's invariant and the primary's, for one copy of the key map: without an admin key there is
+no binding at all, and the primary database (which stores the registry and the key digests) is
+never bound to a key. -/
+def GoodMap (cfg : Cfg) (m : List (String × String)) : Prop :=
+  (cfg.admin = none → m = []) ∧ lookup m cfg.primary = none
 
-theorem init_Inv (cfg : Cfg) : Inv cfg (init cfg) := ⟨fun _ => rfl, rfl⟩
+/-- … for the map enforced in memory, the engine's copy of the extension, and the durable one -/
+def Inv (cfg : Cfg) (s : State) : Prop :=
+  GoodMap cfg s.bound ∧ GoodMap cfg s.extBound ∧ GoodMap cfg s.durableBound
+
+theorem init_Inv (cfg : Cfg) : Inv cfg (init cfg) := ⟨⟨fun _ => rfl, rfl⟩, ⟨fun _ => rfl, rfl⟩, ⟨fun _ => rfl, rfl⟩⟩
 
 theorem checkApiKeyBinding_ok (cfg : Cfg) (n k : String) (h : checkApiKeyBinding cfg n k = .ok ()) :
     cfg.admin ≠ none ∧ n ≠ cfg.primary := by
@@ -587,72 +614,133 @@ theorem checkApiKeyBinding_ok (cfg : Cfg) (n k : String) (h : checkApiKeyBinding
         · intro e; rw [e] at hadm; simp at hadm
         · simpa using hp
 
-theorem Inv_setKey (cfg : Cfg) (s s' : State) (n k : String) (h : Inv cfg s)
-    (hadm : cfg.admin ≠ none) (hn : n ≠ cfg.primary) (hb : s'.bound = setKey s.bound n k) : Inv cfg s' := by
+theorem GoodMap_setKey (cfg : Cfg) (m : List (String × String)) (n k : String) (h : GoodMap cfg m)
+    (hadm : cfg.admin ≠ none) (hn : n ≠ cfg.primary) : GoodMap cfg (setKey m n k) := by
   refine ⟨fun e => absurd e hadm, ?_⟩
-  rw [hb, lookup_setKey_ne _ _ _ _ (fun e => hn e.symm)]
+  rw [lookup_setKey_ne _ _ _ _ (fun e => hn e.symm)]
   exact h.2
 
 theorem eraseKey_nil_of (m : List (String × String)) (n : String) (h : m = []) : eraseKey m n = [] := by
   subst h; rfl
 
-theorem Inv_eraseKey (cfg : Cfg) (s s' : State) (n : String) (h : Inv cfg s)
-    (hb : s'.bound = eraseKey s.bound n) : Inv cfg s' := by
-  refine ⟨fun e => by rw [hb]; exact eraseKey_nil_of _ _ (h.1 e), ?_⟩
-  rw [hb]
+theorem GoodMap_eraseKey (cfg : Cfg) (m : List (String × String)) (n : String) (h : GoodMap cfg m) :
+    GoodMap cfg (eraseKey m n) := by
+  refine ⟨fun e => eraseKey_nil_of _ _ (h.1 e), ?_⟩
   by_cases e : cfg.primary = n
   · rw [e]; exact lookup_eraseKey_self _ _
   · rw [lookup_eraseKey_ne _ _ _ e]; exact h.2
 
-theorem Inv_of_bound_eq (cfg : Cfg) (s s' : State) (h : Inv cfg s) (hb : s'.bound = s.bound) : Inv cfg s' := by
+theorem Inv_of_maps_eq (cfg : Cfg) (s s' : State) (h : Inv cfg s) (hb : s'.bound = s.bound)
+    (he : s'.extBound = s.extBound) (hd : s'.durableBound = s.durableBound) : Inv cfg s' := by
   unfold Inv at h ⊢
-  rw [hb]
+  rw [hb, he, hd]
   exact h
+
+theorem Inv_of_bound_eq (cfg : Cfg) (s s' : State) (h : Inv cfg s) (hb : s'.bound = s.bound)
+    (he : s'.extBound = s.extBound := by rfl) (hd : s'.durableBound = s.durableBound := by rfl) : Inv cfg s' :=
+  Inv_of_maps_eq cfg s s' h hb he hd
+
+theorem persistRegistry_Inv (cfg : Cfg) (s : State) (h : Inv cfg s) : Inv cfg (persistRegistry s).1 := by
+  obtain ⟨h1, h2, h3, _, _⟩ := persistRegistry_fields s
+  unfold Inv at h ⊢
+  rw [h1, h2]
+  refine ⟨h.1, h.2.1, ?_⟩
+  rcases h3 with e | e <;> rw [e]
+  · exact h.2.2
+  · exact h.2.1
+
+theorem storeApiKey_Inv (cfg : Cfg) (s : State) (n : String) (v : Option String) (h : Inv cfg s)
+    (ht : GoodMap cfg (storeTarget s n v)) : Inv cfg (storeApiKey s n v).1 := by
+  obtain ⟨h1, h2, h3, h4, _⟩ := storeApiKey_fields s n v
+  unfold Inv at h ⊢
+  refine ⟨?_, ?_, ?_⟩
+  · cases hr : (storeApiKey s n v).2 with
+    | true => rw [(h1 hr).1]; exact ht
+    | false => rw [h2 hr]; exact h.1
+  · rcases h3 with e | e <;> rw [e]
+    · exact h.2.1
+    · exact ht
+  · rcases h4 with e | e <;> rw [e]
+    · exact h.2.2
+    · exact ht
+
+theorem storeTarget_good_some (cfg : Cfg) (s : State) (n k : String) (h : Inv cfg s)
+    (hadm : cfg.admin ≠ none) (hn : n ≠ cfg.primary) : GoodMap cfg (storeTarget s n (some k)) :=
+  GoodMap_setKey cfg _ n k h.1 hadm hn
+
+theorem storeTarget_good_none (cfg : Cfg) (s : State) (n : String) (h : Inv cfg s) :
+    GoodMap cfg (storeTarget s n none) :=
+  GoodMap_eraseKey cfg _ n h.1
 
 theorem registerDb_Inv (cfg : Cfg) (s : State) (mode : OpenMode) (n : String) (k : Option String)
     (h : Inv cfg s) : Inv cfg (registerDb cfg s mode n k).1 := by
+  have h0 : Inv cfg { s with stored := addName s.stored n } := Inv_of_maps_eq cfg s _ h rfl rfl rfl
   cases k with
   | none =>
     unfold registerDb
-    simp only
+    dsimp only
     repeat' split
-    all_goals first | exact h | exact Inv_of_bound_eq cfg s _ h rfl
+    all_goals first
+      | exact h
+      | exact persistRegistry_Inv cfg _ (Inv_of_maps_eq cfg s _ h rfl rfl rfl)
+      | exact Inv_of_maps_eq cfg _ _ (persistRegistry_Inv cfg _ (Inv_of_maps_eq cfg s _ h rfl rfl rfl)) rfl rfl rfl
   | some key =>
     unfold registerDb
-    simp only
+    dsimp only
     split
     · exact h
     · split
       · exact h
       · rename_i hchk
         have hk := checkApiKeyBinding_ok cfg n key hchk
-        repeat' split
-        all_goals first
-          | exact h
-          | exact Inv_of_bound_eq cfg s _ h rfl
-          | exact Inv_setKey cfg s _ n key h hk.1 hk.2 rfl
+        have hb : Inv cfg (storeApiKey { s with stored := addName s.stored n } n (some key)).1 :=
+          storeApiKey_Inv cfg _ n _ h0 (storeTarget_good_some cfg _ n key h0 hk.1 hk.2)
+        split
+        · split <;> exact h
+        · split
+          · exact h
+          · split
+            · exact h
+            · exact h
+            · split
+              · exact hb
+              · have hp := persistRegistry_Inv cfg _ (Inv_of_maps_eq cfg _
+                  { (storeApiKey { s with stored := addName s.stored n } n (some key)).1 with
+                    opened := addName (storeApiKey { s with stored := addName s.stored n } n (some key)).1.opened n,
+                    registry := addName (storeApiKey { s with stored := addName s.stored n } n (some key)).1.registry n }
+                  hb rfl rfl rfl)
+                split
+                · exact hp
+                · exact storeApiKey_Inv cfg _ n none (Inv_of_maps_eq cfg _ _ hp rfl rfl rfl)
+                    (storeTarget_good_none cfg _ n (Inv_of_maps_eq cfg _ _ hp rfl rfl rfl))
 
 theorem closeDb_Inv (cfg : Cfg) (s : State) (n : String) (h : Inv cfg s) : Inv cfg (closeDb cfg s n).1 := by
+  have hp := persistRegistry_Inv cfg { s with opened := delName s.opened n, registry := delName s.registry n }
+    (Inv_of_maps_eq cfg s _ h rfl rfl rfl)
   unfold closeDb
+  dsimp only
   repeat' split
-  all_goals first | exact h | exact Inv_of_bound_eq cfg s _ h rfl
+  all_goals first | exact h | exact hp | exact Inv_of_maps_eq cfg _ _ hp rfl rfl rfl
 
 theorem setDbApiKey_Inv (cfg : Cfg) (s : State) (n : String) (k : Option String) (f : String)
     (h : Inv cfg s) : Inv cfg (setDbApiKey cfg s n k f).1 := by
   unfold setDbApiKey
-  simp only
+  dsimp only
   split
   · exact h
   · rename_i hchk
     have hk := checkApiKeyBinding_ok cfg n _ hchk
+    have hs := storeApiKey_Inv cfg s n (some (k.getD f)) h (storeTarget_good_some cfg s n _ h hk.1 hk.2)
     repeat' split
-    all_goals first | exact h | exact Inv_setKey cfg s _ n _ h hk.1 hk.2 rfl
+    all_goals first | exact h | exact hs
 
 theorem removeDbApiKey_Inv (cfg : Cfg) (s : State) (n : String) (h : Inv cfg s) :
     Inv cfg (removeDbApiKey s n).1 := by
+  have hs := storeApiKey_Inv cfg s n none h (storeTarget_good_none cfg s n h)
   unfold removeDbApiKey
+  dsimp only
   repeat' split
-  all_goals first | exact h | exact Inv_eraseKey cfg s _ n h rfl
+  all_goals first | exact h | exact hs
 
 theorem rootHandler_Inv (cfg : Cfg) (s : State) (handler : String) (p : RootParams) (f : String)
     (h : Inv cfg s) : Inv cfg (rootHandler cfg s handler p f).1 := by
@@ -681,7 +769,10 @@ theorem rpc_Inv (cfg : Cfg) (s : State) (scope : Scope) (r : Request) (h : Inv c
   | error e => rw [rpc_rejected cfg s _ r e ha]; exact h
   | ok p =>
     cases scope with
-    | database n => exact Inv_of_bound_eq cfg s _ h (rpc_database_bound cfg s n r)
+    | database n =>
+      rcases rpc_database_state cfg s n r with e | ⟨_, b, e⟩ <;> rw [e]
+      · exact h
+      · exact Inv_of_maps_eq cfg s _ h rfl rfl rfl
     | root =>
       unfold rpc
       simp only [ha]
@@ -709,15 +800,126 @@ theorem handle_Inv (cfg : Cfg) (s : State) (r : Request) (h : Inv cfg s) : Inv c
   · exact h
   · exact h
 
+theorem loadDurable_Inv (cfg : Cfg) (s : State) (h : GoodMap cfg s.durableBound) : Inv cfg (loadDurable cfg s) :=
+  ⟨h, h, h⟩
+
 theorem stepEvent_Inv (cfg : Cfg) (s : State) (e : Event) (h : Inv cfg s) : Inv cfg (stepEvent cfg s e) := by
   cases e with
   | request r => exact handle_Inv cfg s r h
-  | restart => exact Inv_of_bound_eq cfg s _ h rfl
+  | restart => exact loadDurable_Inv cfg _ h.2.1
+  | crash => exact loadDurable_Inv cfg _ h.2.2
+  | fault k => exact Inv_of_maps_eq cfg s _ h rfl rfl rfl
 
 theorem run_Inv (cfg : Cfg) (s : State) (es : List Event) (h : Inv cfg s) : Inv cfg (run cfg s es) := by
   induction es generalizing s with
   | nil => exact h
   | cons e es ih => exact ih _ (stepEvent_Inv cfg s e h)
+
+/-! ## acknowledged ⇒ durable -/
+
+theorem persistKeys_no_fault (s : State) (hro : s.primaryRO = false) (hf : s.faultIn = none) :
+    (persistKeys s).2 = true ∧ (persistKeys s).1.durableBound = s.bound ∧ (persistKeys s).1.bound = s.bound := by
+  unfold persistKeys metaPut
+  simp [hro, hf]
+
+theorem setDbApiKey_ack (cfg : Cfg) (s s' : State) (n : String) (k : Option String) (f : String) (res : RootResult)
+    (h : setDbApiKey cfg s n k f = (s', .ok res)) :
+    s'.durableBound = s'.bound ∧ lookup s'.bound n = some (k.getD f) := by
+  unfold setDbApiKey at h
+  dsimp only at h
+  split at h
+  · cases h
+  · split at h
+    · cases h
+    · split at h
+      · rename_i hok
+        cases h
+        obtain ⟨hb, hd, _⟩ := (storeApiKey_fields s n (some (k.getD f))).1 hok
+        rw [hb, hd]
+        exact ⟨rfl, lookup_setKey_self _ _ _⟩
+      · cases h
+
+theorem removeDbApiKey_ack (s s' : State) (n : String)
+    (h : removeDbApiKey s n = (s', .ok (.removed true))) :
+    s'.durableBound = s'.bound ∧ lookup s'.bound n = none := by
+  unfold removeDbApiKey at h
+  split at h
+  · cases h
+  · split at h
+    · cases h
+    · dsimp only at h
+      split at h
+      · rename_i hok
+        cases h
+        obtain ⟨hb, hd, _⟩ := (storeApiKey_fields s n none).1 hok
+        rw [hb, hd]
+        exact ⟨rfl, lookup_eraseKey_self _ _⟩
+      · cases h
+
+theorem registerDb_result (cfg : Cfg) (s : State) (mode : OpenMode) (n : String) (k : Option String) (res : RootResult)
+    (h : (registerDb cfg s mode n k).2 = .ok res) : res = .metadata n := by
+  cases k <;> unfold registerDb at h <;> dsimp only at h <;> repeat' split at h
+  all_goals (cases h; try rfl)
+
+theorem closeDb_result (cfg : Cfg) (s : State) (n : String) (res : RootResult)
+    (h : (closeDb cfg s n).2 = .ok res) : res = .unit := by
+  unfold closeDb at h
+  dsimp only at h
+  repeat' split at h
+  all_goals (cases h; try rfl)
+
+theorem removeDbApiKey_result (s : State) (n : String) (res : RootResult)
+    (h : (removeDbApiKey s n).2 = .ok res) : ∃ b, res = .removed b := by
+  unfold removeDbApiKey at h
+  dsimp only at h
+  repeat' split at h
+  all_goals (cases h; try exact ⟨_, rfl⟩)
+
+theorem setDbApiKey_result (cfg : Cfg) (s : State) (n : String) (k : Option String) (f : String) (res : RootResult)
+    (h : (setDbApiKey cfg s n k f).2 = .ok res) : res = .keySet n k.isNone := by
+  unfold setDbApiKey at h
+  dsimp only at h
+  repeat' split at h
+  all_goals (cases h; try rfl)
+
+/-- an acknowledged key change — `db.set_api_key` answered, or `db.remove_api_key` answered `true` —
+leaves the durable key map equal to the enforced one -/
+theorem rootHandler_ack (cfg : Cfg) (s s' : State) (hd : String) (p : RootParams) (f : String) (res : RootResult)
+    (h : rootHandler cfg s hd p f = (s', .ok res))
+    (hres : (∃ n g, res = .keySet n g) ∨ res = .removed true) : s'.durableBound = s'.bound := by
+  have bad_meta : ∀ n, res ≠ .metadata n := by
+    intro n e; rcases hres with ⟨_, _, e'⟩ | e' <;> rw [e'] at e <;> cases e
+  have bad_unit : res ≠ .unit := by
+    intro e; rcases hres with ⟨_, _, e'⟩ | e' <;> rw [e'] at e <;> cases e
+  unfold rootHandler at h
+  split at h
+  · cases h; rcases hres with ⟨_, _, e'⟩ | e' <;> cases e'
+  · split at h
+    · cases h; rcases hres with ⟨_, _, e'⟩ | e' <;> cases e'
+    · cases hn : p.name with
+      | none =>
+        simp only [hn] at h
+        repeat' split at h
+        all_goals cases h
+      | some n =>
+        simp only [hn] at h
+        split at h
+        · exact absurd (registerDb_result _ _ _ _ _ _ (congrArg Prod.snd h)) (bad_meta n)
+        · split at h
+          · exact absurd (registerDb_result _ _ _ _ _ _ (congrArg Prod.snd h)) (bad_meta n)
+          · split at h
+            · exact absurd (registerDb_result _ _ _ _ _ _ (congrArg Prod.snd h)) (bad_meta n)
+            · split at h
+              · exact absurd (closeDb_result _ _ _ _ (congrArg Prod.snd h)) bad_unit
+              · split at h
+                · exact (setDbApiKey_ack _ _ _ _ _ _ _ h).1
+                · split at h
+                  · rcases hres with ⟨n', g, e'⟩ | e'
+                    · obtain ⟨b, eb⟩ := removeDbApiKey_result _ _ _ (congrArg Prod.snd h)
+                      rw [e'] at eb; cases eb
+                    · rw [e'] at h
+                      exact (removeDbApiKey_ack _ _ _ h).1
+                  · cases h
 
 /-! ## routing -/
 
